@@ -189,7 +189,7 @@ func (w *c18World) check(f *c18Filter, path, cookie string) *sim.Resp {
 
 func sidIn(r *sim.Resp, name string) string {
 	for _, sc := range r.SetCookies() {
-		if sc.Name == name && sc.Attrs["max-age"] != "0" {
+		if sc.Name == name && !sc.Expired() {
 			return sc.Value
 		}
 	}
